@@ -137,27 +137,30 @@ def _maybe_none(f: Func, e: ast.AST, depth: int = 3) -> bool:
 
 
 def nullable_member_keys(ctx: Ctx) -> Set[str]:
-    """keys of the per-member record that _real_get_contents may set to None for an existing member."""
+    """keys of the per-member record that _real_get_contents may set to None for an existing member: the key is stored directly from a
+    None-able expression, or from a local / tuple component / named field of the same name that the size helper computes as `... or None`."""
     rg = shared.szf(ctx, "_real_get_contents")
     gs = shared.szf(ctx, "_get_fileinfo_sizes")
-    # names of the helper's result tuple that may be None
-    none_pos: Set[int] = set()
-    for r in [n for n in walk(gs.node) if isinstance(n, ast.Return) and isinstance(n.value, ast.Tuple)]:
-        for i, e in enumerate(r.value.elts):
-            if _maybe_none(gs, e):
-                none_pos.add(i)
-    nullable_locals: Set[str] = set()
-    for n in walk(rg.node):
-        if isinstance(n, ast.Assign) and isinstance(n.targets[0], ast.Tuple) and isinstance(n.value, ast.Call) and attr_tail(n.value) == "_get_fileinfo_sizes":
-            for i, t in enumerate(n.targets[0].elts):
-                if i in none_pos and isinstance(t, ast.Name):
-                    nullable_locals.add(t.id)
+    noneable_names: Set[str] = set()
+    for g in (rg, gs):
+        for n in walk(g.node):
+            if isinstance(n, ast.Assign) and isinstance(n.targets[0], ast.Name) and _maybe_none(g, n.value, depth=1):
+                noneable_names.add(n.targets[0].id)
+            if isinstance(n, ast.Call):
+                for k in n.keywords:
+                    if k.arg and _maybe_none(g, k.value, depth=2):
+                        noneable_names.add(k.arg)
     keys: Set[str] = set()
     for n in walk(rg.node):
         if isinstance(n, ast.Assign) and isinstance(n.targets[0], ast.Subscript) and isinstance(n.targets[0].slice, ast.Constant):
+            k = n.targets[0].slice.value
             v = n.value
-            if (isinstance(v, ast.Name) and v.id in nullable_locals) or _maybe_none(rg, v, depth=1):
-                keys.add(n.targets[0].slice.value)
+            if _maybe_none(rg, v, depth=1):
+                keys.add(k)
+            elif isinstance(v, ast.Name) and v.id in noneable_names and v.id == k:
+                keys.add(k)
+            elif isinstance(v, ast.Attribute) and v.attr in noneable_names and v.attr == k:
+                keys.add(k)
     return keys
 
 
